@@ -10,6 +10,7 @@ used only after a break / in the thorough tier."""
 import math, cmath, json, collections, hashlib
 from fractions import Fraction as Fr
 from common import *
+import c12_sessions
 
 COQ_PROPS = 'props/C12.v'
 PARTIAL = ('proved over the reals for every N >= 2 and every M: estimate (real: value, u, df; complex: the 2x2 covariance of '
@@ -27,7 +28,9 @@ ASSUMPTIONS = ['rounding error of float arithmetic is not bounded by proof (theo
                'kernel facts used as hypotheses of the combination theorem: LPU double sum (C04), single-ensemble Welch-Satterthwaite (C05)']
 TRUSTED = ['translator tools/tr_type_a_est.py (Python ast -> Gallina, fail-closed) for gen/Gen_type_a_est.v',
            'CPython 3.12 semantics modelled by hand in TypeAEst.v: builtin sum (Neumaier for floats), complex/int division, max, min',
-           'Coq Reals library (sqrt, Rabs) and lra/nra/field']
+           'Coq Reals library (sqrt, Rabs) and lra/nra/field',
+           'session-level suite: harness/c12_sessions.py (implementation vs specification: dof of a combination = N-1 whatever was evaluated before) '
+           'and the complex kernel model CKernel.v through harness/cgen.py profile dof (dof histories incl. failing evaluations)']
 
 # ---------------------------------------------------------------- sample generators
 def gen_series(rng, n, style=None):
@@ -307,14 +310,31 @@ def correspondence(rng, tier):
             distinct.add(hashlib.sha1(repr(call).encode()).hexdigest())
         if v is not None and v != -1:
             mism.append({'kind': 'model-vs-implementation', 'call': call, 'implementation_output': out})
-    return {'programs': len(calls), 'steps': len(calls), 'mismatches': mism, 'distinct': len(distinct),
+    # ---- session level: sequences of estimator calls and dof evaluations within one context
+    #  (a) through type_a's own declarations, against the specification (dof of a combination = N-1 whatever came before)
+    smism, sstats, sdistinct = c12_sessions.run_suite(rng, 60 if tier == 'quick' else 3000)
+    mism += smism
+    for k, v in sstats.items(): stats['session:' + k] += v
+    #  (b) the kernel the claim rests on: willink_hall / welch_satterthwaite with the class-level accumulators, the complex
+    #      kernel model CKernel.v bit for bit on histories that include failing dof evaluations followed by others
+    ck = __import__('cgen').run_ckernel_corr(rng, 'dof', 'C12c', tier=tier, n=4 if tier == 'quick' else 12)
+    mism += ck['mismatches']
+    for k, v in ck['distribution'].items():
+        if k.startswith('sessions_'): stats['kernel:' + k] += v
+    nprog = len(calls) + sstats.get('sessions', 0) + ck['programs']
+    nsteps = len(calls) + sstats.get('steps', 0) + ck['steps']
+    return {'programs': nprog, 'steps': nsteps, 'mismatches': mism, 'distinct': len(distinct) + sdistinct + ck['distinct'],
             'distribution': dict(stats),
             'rule': 'random samples (N in 2..12, M in 1..4; decimal, large-offset, wide-range, dyadic, integer, constant, exactly and '
                     'nearly collinear series; float / uncertain-number data; optional mu; digitized data with no / LSD-only / larger scatter) '
                     'through mean, standard_deviation, standard_uncertainty, variance_covariance_complex, estimate, estimate_digitized, '
                     'multi_estimate_real, multi_estimate_complex; every 8th case malformed (N = 0, 1, ragged, M = 0); x, u, df, independent of '
                     'every returned component and every pairwise get_correlation compared bit for bit with the FNum model, exceptions by class; '
-                    'non-trivial = the implementation returned a value; distinct by hash of the call',
+                    'non-trivial = the implementation returned a value; distinct by hash of the call.  Session level: random scripts that '
+                    'declare estimate / multi_estimate_real / multi_estimate_complex results, form linear combinations and results whose dof '
+                    'evaluation fails (AssertionError, IndexError: known C05 findings), and read dofs in random order, targets after '
+                    'disturbances and repeatedly; every target read must give N-1 (rel 1e-6) and the same value again (harness/c12_sessions.py); '
+                    'plus the dof histories of the complex kernel model (cgen profile dof) bit for bit',
             'samples': [{'call': c[0]} for c in calls[:2]]}
 
 # ---------------------------------------------------------------- oracle (search only): exact sample statistics
@@ -471,7 +491,7 @@ def check_estimate_complex(l):
 def one_search_case(rng):
     """-> (check function, arguments)"""
     n = rng.randint(2, 12)
-    t = rng.randrange(6)
+    t = rng.randrange(7)
     rc = lambda: round(rng.uniform(-3, 3), 2)
     if t == 0: return check_estimate_real, [gen_series(rng, n)]
     if t == 1: return check_un_data, [gen_series(rng, n)]
@@ -483,6 +503,7 @@ def one_search_case(rng):
     if t == 4:
         m = rng.randint(1, 3); ls, _ = gen_multi(rng, 2 * m, n)
         return check_complex, [[to_pairs(ls[2 * k], ls[2 * k + 1]) for k in range(m)], [(rc(), rc()) for _ in range(m)]]
+    if t == 6: return c12_sessions.check_session, [c12_sessions.gen_session(rng)]
     (a, b), _ = gen_multi(rng, 2, n)
     return check_estimate_complex, [to_pairs(a, b)]
 
@@ -505,6 +526,14 @@ def is_known(f):
 def search(rng, tier, broken):
     n = 600 if tier == 'quick' else 6000
     tried = 0; known = collections.Counter()
+    # a session that disagreed with the specification in the correspondence run is itself the failing input
+    for kind, detail in broken or []:
+        if kind != 'correspondence': continue
+        for m in detail:
+            if isinstance(m, dict) and m.get('kind') == 'session-vs-specification':
+                tried += 1
+                r = run_check(c12_sessions.check_session, [m['script']])
+                if r is not None: return {'tried': tried, 'failing': r, 'known_skipped': {}}
     for _ in range(n):
         tried += 1
         fn, args = one_search_case(rng)
@@ -549,7 +578,7 @@ def replay(payload):
         return 0
     print('failing input:', json.dumps(f, default=str)[:2000])
     fn = {c.__name__: c for c in (check_estimate_real, check_un_data, check_digitized, check_multi_real, check_complex,
-                                  check_estimate_complex)}.get(f.get('check'))
+                                  check_estimate_complex, c12_sessions.check_session)}.get(f.get('check'))
     if fn is None:
         print('no replayable check recorded'); return 1
     args = f['args']
